@@ -318,6 +318,14 @@ class SNum(Sym):
             a, b, _ = _coerce(self, o)
         except TypeError:
             return NotImplemented
+        # sqrt(x) <op> sqrt(y)  <=>  x <op> y  for x, y >= 0 (sqrt strictly increasing): compare the
+        # radicands when both are non-negative by construction (sums of squares)
+        try:
+            if z3.is_app(a) and z3.is_app(b) and a.decl().name() == 'sqrt' and b.decl().name() == 'sqrt' \
+                    and getattr(self, 'sqrt_of_nonneg', False) and getattr(o, 'sqrt_of_nonneg', False):
+                return SBool(f(a.arg(0), b.arg(0)))
+        except Exception:
+            pass
         return SBool(f(a, b))
 
     def __lt__(self, o):
@@ -561,7 +569,9 @@ class SComplex(Sym):
     def __abs__(self):
         if _is_zero_poly(self.im):
             return abs(self.re.to_real())
-        return self.abs2().to_real().sqrt()
+        r = self.abs2().to_real().sqrt()
+        r.sqrt_of_nonneg = True          # radicand re^2 + im^2 >= 0
+        return r
 
     @property
     def real(self):
